@@ -256,7 +256,7 @@ impl EGen {
                                     out.push(match_(s.clone(), vec![(p0.clone(), a.clone()), (pvar("w"), b.clone())]));
                                     // an unsuffixed range pattern starting at 0 (its type comes from the scrutinee)
                                     if i == 0 && j == 0 {
-                                        out.push(match_(s.clone(), vec![(Pat::Range(0, 9, true, None), a.clone()), (Pat::Range(10, 100, false, None), b.clone()), (pvar("w"), a.clone())]));
+                                        out.push(match_(s.clone(), vec![(Pat::Range(0, 9, true, None), a.clone()), (Pat::Range(10, 100, false, None), a.clone()), (pvar("w"), b.clone())]));
                                     }
                                 }
                             }
